@@ -448,18 +448,14 @@ impl ExecClient {
         // of the harness; the executor is killed and the run reported inconclusive
         let bound = std::env::var("DV_CASE_TIMEOUT").ok().and_then(|x| x.parse().ok()).unwrap_or(self.bound);
         let pid = child.id();
-        let done = std::sync::Arc::new(std::sync::atomic::AtomicBool::new(false));
         let fired = std::sync::Arc::new(std::sync::atomic::AtomicBool::new(false));
-        let (d2, f2) = (done.clone(), fired.clone());
+        let f2 = fired.clone();
+        // the watchdog sleeps on a channel: it is woken the moment the answer has been read
+        let (done_tx, done_rx) = std::sync::mpsc::channel::<()>();
         let watchdog = std::thread::spawn(move || {
-            let start = Instant::now();
-            while !d2.load(std::sync::atomic::Ordering::Relaxed) {
-                if start.elapsed().as_secs() >= bound {
-                    f2.store(true, std::sync::atomic::Ordering::Relaxed);
-                    let _ = std::process::Command::new("kill").arg("-9").arg(pid.to_string()).status();
-                    break;
-                }
-                std::thread::sleep(std::time::Duration::from_millis(200));
+            if let Err(std::sync::mpsc::RecvTimeoutError::Timeout) = done_rx.recv_timeout(std::time::Duration::from_secs(bound)) {
+                f2.store(true, std::sync::atomic::Ordering::Relaxed);
+                let _ = std::process::Command::new("kill").arg("-9").arg(pid.to_string()).status();
             }
         });
         let mut resp = String::new();
@@ -467,7 +463,7 @@ impl ExecClient {
             Ok(n) if n > 0 => serde_json::from_str(&resp).ok(),
             _ => None,
         };
-        done.store(true, std::sync::atomic::Ordering::Relaxed);
+        let _ = done_tx.send(());
         let _ = watchdog.join();
         if fired.load(std::sync::atomic::Ordering::Relaxed) {
             self.hung = true;
